@@ -36,6 +36,20 @@ CHECKS = {
         "Bounded to 4 items and 8 rounds; the usage protocol is the one in the property (checked against real traces, not assumed).",
         "§4 C26",
     ),
+    "C03": (
+        "progmc c03",
+        "bounded-exhaustive enumeration of control skeletons against a defer-stack reference interpreter, each compiled and executed by the real CLI",
+        "Every control skeleton over {defer, print, block, labelled block, while, labelled while, loop, if, break, break `l, continue, continue `l, return, .try} with <= 4 items / depth 2 (thorough: <= 5 items / depth 3: 52970 skeletons) is compiled by the real CLI and run with both values of the branch-driving parameter; the printed character sequence (one letter per defer and per print) must equal the interpreter's, which checks exactly-once, LIFO, inner-before-outer and not-reached-not-run in one comparison.",
+        "Skeletons beyond the bound (7 items, depth 4) are not reached; deferred expressions are single prints.",
+        "§4 C03",
+    ),
+    "C09": (
+        "progmc c09",
+        "bounded-exhaustive enumeration of (value, spelling, context) literal cases compiled (and executed) by the real CLI against the fits-the-type rule and the written value",
+        "29 values near every integer type boundary x up to 12 spellings (plain, four `_` placements, every exact exponent form, hex upper/lower, binary) x 12 annotated types (accept iff it fits; accepted ones print the value) and 7 unannotated contexts (local, const, +0, /2, array element, global, comparison, argument); every printable char literal, every `\\c` escape valid or not in char and string literals, 30 float literals at f32/f64.",
+        "Values are < 2^64; negative numbers are an operator applied to a literal; an unannotated global may be rejected when the value exceeds the default type.",
+        "§4 C09",
+    ),
     "C08": (
         "progmc c08",
         "bounded-exhaustive enumeration of (type, operator, operand tuple) and (source, target, value) over boundary values, compiled and executed by the real CLI, against big-integer / IEEE reference arithmetic",
